@@ -1,7 +1,7 @@
 open Model
 open Main_common
 
-let strip_l s = if String.length s > 2 && String.sub s (String.length s - 2) 2 = "+L" then String.sub s 0 (String.length s - 2) else s
+let strip_l s = match String.index_opt s '+' with Some i -> String.sub s 0 i | None -> s
 let pol_of s = match strip_l s with "Block" -> PBlock | "Discard" -> PDiscard | "DiscardOldest" -> PDiscardOldest | s -> failwith ("policy " ^ s)
 
 let run (line : string) : string =
@@ -11,7 +11,8 @@ let run (line : string) : string =
       let q = ref (q_init (nat_of_int (int_of_string cap)) (pol_of pol)) in
       let show_item (p, n) =
         let p = int_of_nat p and n = int_of_nat n in
-        Printf.sprintf "%c%d.%d" (try Hashtbl.find kinds (p, n) with Not_found -> '?') p n in
+        let k = (try Hashtbl.find kinds (p, n) with Not_found -> '?') in
+        if k = 'z' then "z" else Printf.sprintf "%c%d.%d" k p n in
       let auto_receive () =
         (* the real worker takes the next item as soon as it is free *)
         if (!q).q_held = None && not (!q).q_stopped && (!q).q_buf <> [] then q := aseq_step !q OReceive in
